@@ -88,7 +88,7 @@ _RE_PROP = re.compile(r"(Temporal properties were violated|Action property (\S+)
 _RE_COV = re.compile(r"^<(\w+) line (\d+), col (\d+) to line (\d+), col (\d+) of module (\w+)>: (\d+):(\d+)")
 
 
-def tlc(module, cfg=None, *, workers=8, timeout=600, simulate=None, depth=None,
+def tlc(module, cfg=None, *, workers=4, timeout=600, simulate=None, depth=None,
         coverage=True, env=None, deadlock=False, seed_=None, jvm=None, extra=None,
         dfid=None, marker="REPLAY", sink=None, cwd=None):
     """Run TLC on spec/<module>.tla with spec/<cfg>. Returns TlcResult.
@@ -97,7 +97,7 @@ def tlc(module, cfg=None, *, workers=8, timeout=600, simulate=None, depth=None,
     cwd = cwd or SPEC
     cfg = cfg or (module + ".cfg")
     meta = tempfile.mkdtemp(prefix="tlcmeta_")
-    jvm_opts = ["-XX:+UseParallelGC", "-Xss64m"] + (jvm or [])
+    jvm_opts = ["-XX:+UseParallelGC", "-Xss64m", "-Xmx6g"] + (jvm or [])
     cmd = ["timeout", str(timeout), "java"] + jvm_opts + ["-cp", _classpath(), "tlc2.TLC",
            "-metadir", meta, "-cleanup", "-noGenerateSpecTE", "-config", cfg]
     if not deadlock:
